@@ -142,7 +142,23 @@ def rule_magnitude_from_digits(ctx, fx, config):
                 with f.deep():
                     a = f.sym_operand(t["args"][0])
                 n += 1
-                okd = sym_contains(a, lambda x: x[0] == "call" and (x[1] in accs or (x[1].startswith(PS) and fx.fn_opt(x[1]) is not None and any(fx.callee(t2) in accs for b2, t2 in fx.fn_opt(x[1]).calls()))))
+                is_acc = lambda x: x[0] == "call" and (x[1] in accs or (x[1].startswith(PS) and fx.fn_opt(x[1]) is not None and any(fx.callee(t2) in accs for b2, t2 in fx.fn_opt(x[1]).calls())))
+
+                def derives(x, depth=0):
+                    # the value path, on *every* alternative (a helper inlined by the normalisation shows its constant result as
+                    # one alternative of a phi): through wrappers, through the arguments of adapting calls, into aggregates
+                    if depth > 40 or not isinstance(x, tuple) or not x:
+                        return False
+                    if x[0] == "phi":
+                        return all(derives(y, depth + 1) for y in x[2])
+                    if x[0] == "call":
+                        return is_acc(x) or any(derives(y, depth + 1) for y in x[2])
+                    if x[0] in ("field", "downcast", "deref", "ref", "cast"):
+                        return derives(x[1], depth + 1)
+                    if x[0] == "aggr":
+                        return any(derives(y, depth + 1) for y in x[4])
+                    return False
+                okd = derives(a)
                 ctx.check(okd, "ARITH", "C06:ARITH:magnitude-from-digits:%s:try_from" % f.name, "the narrowed value derives from a digit accumulator", "%s narrows `%s`, which does not come out of a digit accumulator" % (f.name, render(a)[:80]), config, ctx.where(f, b))
     ctx.floor("ARITH.magnitude-sites", n, 4, config)
 
